@@ -526,10 +526,10 @@ func (prog *Program) tryReplay(o *Obligation, axioms []*Term, repo string) *repl
 		return res
 	}
 	fi := vc.fn
-	if hasLoops(fi.Decl.Body) {
-		res.Reason = "the function contains loops: a model of the cut verification condition need not be an execution"
-		return res
-	}
+	// A function with loops is verified with its loops cut at the invariants, so a model of the failed condition need
+	// not be an execution. Its INPUTS are still worth running: if the real code fails on them, that is a counterexample
+	// whatever the model said about the loop; if it does not, nothing is concluded.
+	loopy := hasLoops(fi.Decl.Body)
 	if o.Kind != "safety" && o.Kind != "ensures" {
 		res.Reason = "replay is implemented for safety and postcondition obligations"
 		return res
@@ -760,6 +760,9 @@ func (prog *Program) tryReplay(o *Obligation, axioms []*Term, repo string) *repl
 	}
 	if !res.Reproduced && res.Reason == "" {
 		res.Reason = "the generated test did not reproduce the failure on the real code (the model may rely on abstracted library behaviour)"
+		if loopy {
+			res.Reason = "the function contains loops (cut at their invariants): the inputs of the solver's model were run on the real code and did not fail"
+		}
 	}
 	return res
 }
